@@ -211,6 +211,7 @@ fn main() {
             println!("{}", serde_json::to_string(&rep).unwrap());
             code
         }
+        #[cfg(not(feature = "nostd"))]
         "hashfile" => {
             let dir = arg_val(&args, "--dir").unwrap_or_else(|| harness_error("--dir"));
             let seed = parse_u64(&arg_val(&args, "--seed").unwrap_or_else(|| "1".into()));
@@ -226,6 +227,7 @@ fn main() {
             println!("{}", serde_json::to_string(&rep).unwrap());
             code
         }
+        #[cfg(not(feature = "nostd"))]
         "hashfile-big" => {
             let dir = arg_val(&args, "--dir").unwrap_or_else(|| harness_error("--dir"));
             let variant = parse_u64(&arg_val(&args, "--variant").unwrap_or_else(|| "1".into())) as u8;
@@ -234,12 +236,14 @@ fn main() {
             println!("{}", serde_json::to_string(&rep).unwrap());
             code
         }
+        #[cfg(not(feature = "nostd"))]
         "hashfile-unpriv" => {
             let path = arg_val(&args, "--path").unwrap_or_else(|| "/etc/passwd".into());
             let (code, rep) = c12file::unprivileged(&path);
             println!("{}", serde_json::to_string(&rep).unwrap());
             code
         }
+        #[cfg(not(feature = "nostd"))]
         "hashfile-one" => {
             println!("{}", c12file::one(&arg_val(&args, "--path").unwrap_or_else(|| harness_error("--path"))));
             0
@@ -253,6 +257,7 @@ fn main() {
             println!("{}", serde_json::to_string(&rep).unwrap());
             code
         }
+        #[cfg(not(feature = "nostd"))]
         "bigreader" => {
             let variant = parse_u64(&arg_val(&args, "--variant").unwrap_or_else(|| "1".into())) as u8;
             let pattern = data::unhex(&arg_val(&args, "--pattern").unwrap_or_else(|| "a40e".into())).unwrap_or_else(|e| harness_error(&e));
